@@ -26,7 +26,7 @@ out = ["# Seeded changes", "",
        "Each directory holds `patch.diff` (applies to /repo HEAD with `git apply`), `demo.py` (exits 1 with the change, 0 without;",
        "run with `PYTHONPATH=seeded/_tools:/repo /venv/bin/python demo.py`), `meta.json` (what the sub-agent changed and what it needs),",
        "`verified.json` (my confirmation in a scratch worktree: applies, existing suite still 67 passed, demo fails with / passes without).",
-       "Round 1 = `_a _b`, round 2 = `_c _d`, round 3 = `_e _f _g`, round 4 = `_h _i _j`, round 5 = `_k _l _m`, round 6 = `_n _o _p`, round 7 = `_q _r _s`; every round by fresh sub-agents that saw only the property text.", "",
+       "Round 1 = `_a _b`, round 2 = `_c _d`, round 3 = `_e _f _g`, round 4 = `_h _i _j`, round 5 = `_k _l _m`, round 6 = `_n _o _p`, round 7 = `_q _r _s`, round 8 = `_t _u _v`; every round by fresh sub-agents that saw only the property text.", "",
        "`own check` = `bin/check <its property> --tier quick` with the change applied (signatures of the first replays);",
        "`all checks` = which of the twenty quick checks report it (rounds 1-2, `selftest/matrix.sh`).", "",
        "| id | change | needs | own check | all checks |", "|---|---|---|---|---|"]
